@@ -324,7 +324,7 @@ pub fn check(o: &CheckOpts) -> i32 {
             signature: sig.clone(),
             digest: min_digest,
             detail: det2.clone(),
-            origin: format!("VERIF_SEED={} run={} world={} items {}->{} after {} re-executions", o.seed, idx, scn.world, scn.items.len(), min.items.len(), tries),
+            origin: format!("VERIF_SEED={} tier={} run={} world={} items {}->{} after {} re-executions", o.seed, o.tier.name(), idx, scn.world, scn.items.len(), min.items.len(), tries),
             scenario: min,
         };
         let path = format!("{}/replays/{}-{}.replay", verif_dir(), prop.id(), sig_file_part(sig));
